@@ -128,6 +128,15 @@ Section Outer.
     evald s' out.
   Proof. apply evald_frame. Qed.
 
+  Lemma restore_x_facts (s1 : state) :
+    va (restore_x E cf s1) = va s1 /\ ta (restore_x E cf s1) = ta s1 /\ log (restore_x E cf s1) = log s1 /\
+    sx (restore_x E cf s1) = sx s1 /\ mfl (restore_x E cf s1) = mfl s1 /\
+    kn_inact E (va s1) (knobs s1) (knobs (restore_x E cf s1)).
+  Proof.
+    unfold restore_x. destruct (sx s1) eqn:Hs; [|repeat split; auto; apply kn_inact_refl].
+    unfold set_knobs_from_x; stsimpl. repeat split; auto. apply wk_inact.
+  Qed.
+
   Lemma step_loop_spec fuel b : forall nn i s,
     synced s -> at_last s ->
     post (step_loop E cf fuel nn i b s)
@@ -143,12 +152,15 @@ Section Outer.
       assert (H0 : knobs s0 = knobs s /\ va s0 = va s /\ ta s0 = ta s /\ log s0 = log s).
       { unfold s0. destruct (sx s); [destruct (allclose_masked E (va s) x l)|]; stsimpl; auto. }
       destruct H0 as (K0 & V0 & T0 & L0).
-      eapply post_bind'; [apply jac_step_spec| |].
-      { intros e s' ((A1 & A2 & A3 & A5) & _). rewrite K0, V0 in A5.
-        split; [unfold frame; repeat split; congruence|].
-        exists []. rewrite app_nil_r. split; auto; congruence. }
-      intros s1 ((A1 & A2 & A3 & A5) & (x' & y & kp & S1 & S2 & S3 & S4 & S5 & S6 & _)).
-      unfold log_step. rewrite S1.
+      pose proof (jac_step_spec E cf fuel (this_broyden b i) s0) as Pj.
+      destruct (jac_step E cf fuel (this_broyden b i) s0) as [s1|e s1|]; [|clear IH|exact I].
+      2:{ cbn in Pj |- *. destruct Pj as ((A1 & A2 & A3 & A5) & _). rewrite K0, V0 in A5.
+          destruct (restore_x_facts s1) as (Rv & Rt & Rl & _ & _ & Rk).
+          split; [unfold frame; rewrite Rv, Rt; repeat split; try congruence;
+                  eapply kn_inact_trans; [exact A5|rewrite <- V0, <- A1; exact Rk]|].
+          exists []. rewrite app_nil_r. split; auto; congruence. }
+      cbn in Pj. destruct Pj as ((A1 & A2 & A3 & A5) & (x' & y & kp & S1 & S2 & S3 & S4 & S5 & S6 & _)).
+      unfold log_step, restore_x. rewrite S1.
       assert (Hk2 : knobs (set_knobs_from_x E cf x' s1) = knobs s1).
       { unfold set_knobs_from_x; stsimpl. rewrite A1. eapply wk_idem; eauto. }
       assert (H2 : va (set_knobs_from_x E cf x' s1) = va s1 /\ ta (set_knobs_from_x E cf x' s1) = ta s1 /\
@@ -187,6 +199,40 @@ Section Outer.
         * intros e s' (G1 & G5).
           split; [exact (frame_trans _ _ _ F3 G1)|].
           eapply ext_rows_trans; eauto. intros r0 [Q1 Q2]. split; auto. eapply row_of_frame; eauto.
+  Qed.
+
+  (* the containers agree with solver.x on every active knob *)
+  Definition on_solver_x (s : state) : Prop :=
+    exists x, sx s = Some x /\ fst (write_knobs E false (va s) lims (x_to_knobs E cf x) (knobs s)) = knobs s.
+
+  Lemma wk_false_noerr act l kv old : snd (write_knobs E false act l kv old) = false.
+  Proof.
+    revert l kv old; induction act as [|a act IH]; intros [|l0 l] [|v kv] [|o old]; cbn; auto.
+    specialize (IH l kv old). destruct (write_knobs E false act l kv old); cbn in *. destruct a; auto.
+  Qed.
+
+  (* "except Exception: self.set_knobs_from_x(self.solver.x); raise": when the loop of
+     Optimize.step fails, the containers are on the last accepted point solver.x *)
+  Lemma step_loop_err_on_x fuel b : forall nn i s e s',
+    step_loop E cf fuel nn i b s = Err e s' -> on_solver_x s'.
+  Proof.
+    induction nn as [|nn IH]; intros i s e s'; cbn [step_loop]; [discriminate|].
+    set (x := knobs_to_x E cf (knobs s)).
+    set (s0 := match sx s with
+               | Some x' => if allclose_masked E (va s) x x' then s else set_sx s (Some x) (map (fun _ => true) x)
+               | None => set_sx s (Some x) (map (fun _ => true) x) end).
+    assert (Hs0 : exists x0, sx s0 = Some x0).
+    { unfold s0. destruct (sx s) eqn:Hs; [destruct (allclose_masked E (va s) x l)|]; stsimpl; eauto. }
+    destruct Hs0 as [x0 Hs0].
+    pose proof (jac_step_spec E cf fuel (this_broyden b i) s0) as Pj.
+    destruct (jac_step E cf fuel (this_broyden b i) s0) as [s1|e1 s1|]; [| |discriminate].
+    - destruct (lpwt (log_step E cf s1)); [discriminate|]. apply IH.
+    - intros H. inversion H; subst e1 s'. cbn in Pj. destruct Pj as (_ & X & _).
+      assert (Hs1 : sx s1 = Some x0) by congruence.
+      exists x0. unfold restore_x. rewrite Hs1. unfold set_knobs_from_x; stsimpl. split; auto.
+      pose proof (wk_false_noerr (va s1) lims (x_to_knobs E cf x0) (knobs s1)) as Hn.
+      destruct (write_knobs E false (va s1) lims (x_to_knobs E cf x0) (knobs s1)) as [k' e'] eqn:Hw.
+      cbn in Hn |- *. subst e'. eapply wk_idem; eauto.
   Qed.
 
   (* ---- Optimize.step between the temporary flag changes ----------------------- *)
